@@ -11,12 +11,14 @@ from . import common
 from .common import Corr, f2hex, hex2f, frac2s, flist, parse_list
 
 ID = "C06"
-LEAN_MODULES = ["TempestVerif.Props.C06", "TempestVerif.Lemmas.CeilComb"]
+LEAN_MODULES = ["TempestVerif.Props.C06", "TempestVerif.Lemmas.CeilComb", "TempestVerif.Props.C06Loop", "TempestVerif.Props.C06X",
+                "TempestVerif.Props.C06Sites", "TempestVerif.Props.C06Fp", "TempestVerif.Props.C06Pipeline"]
 RULE = ("systematic: generated (n, w) x the COMPLETE finite partition of the offset u0 for that pair — every breakpoint frac(n*C_j), "
         "breakpoint +-2^-40, its two float neighbours, midpoints of consecutive breakpoints, 0.0 and nextafter(1,0); the REAL "
         "tempest.tools.systematic_resample is run with numpy.random.random replaced by u0. "
         "Regime Q: few-bit dyadic weights (sum exactly 1; 1+-2^-k for k in 20..40 on both sides of SQRTEPS=2^-26; sums 2, 1/2, 4; zeros, "
-        "dominant weight, length 1, empty vector, n=0); a case is compared exactly with the Rat model only after an audit showed every float "
+        "dominant weight, length 1, empty vector, n=0, TRAILING ZERO weights — fixed vectors and 15% of the random ones — which with the offset "
+        "nextafter(1,0) of every partition exercise the cap at the last positive weight, /repo 5a51476); a case is compared exactly with the Rat model only after an audit showed every float "
         "operation of the Python (np.sum, w/s, (u0+i)/n, every running sum) to be exact for that input, otherwise it is sent to regime F. "
         "Regime F: bit-exact Float model (same operation order) on Dirichlet/skewed/unnormalised/all-zero weights of length 0..300, n up to 1000, "
         "with random and adversarial offsets (neighbours of the float breakpoints, 0, nextafter(1,0), 1-1e-12); weights are handed over as "
@@ -27,17 +29,40 @@ RULE = ("systematic: generated (n, w) x the COMPLETE finite partition of the off
         "(incl. size 0 and the empty vector). Resampler.run (both schemes, beta=0 warm-up branch, unknown scheme string, have_blobs on/off, "
         "clustering on/off with a stub clusterer) is driven on real StateManager histories whose particles carry their pool index; the "
         "indices it gathered with are compared with the model `resamplerRun`, and the gather of u/x/logl/blobs/labels is checked. "
-        "Sampler.posterior(resample=True) on real runs vs the model `posteriorResample`. "
+        "Sampler.posterior(resample=True) on real runs vs the model `posteriorResample`, and from exp(logw - max) through the in-place "
+        "normalisations and the recorded trimming mask vs `posteriorResampleNoTrim` / `posteriorResampleTrim`. "
+        "choice-validation: weight vectors whose exact sum lies within a few 2^-54 of the acceptance thresholds 1 +- 2^-26, sums off by "
+        "1e-6..1e-9, negative / -0.0 / NaN / inf entries, the empty vector, one dominant entry; the verdict of the real np.random.choice "
+        "(accepted, or which ValueError) vs the Float model of kahan_sum + the checks in numpy's order. "
+        "execute_iteration: real Sampler.sample() iterations (both schemes, ESS and volume-variation mode) observed at three points "
+        "(weights into Reweighter._finalize_iteration, array and draws of the resampling call inside Resampler.run, beta): the received "
+        "array vs `weightsAtResampler`, the indices vs `iterationResample`, no call while beta = 0. "
+        "fp-count-law: the F generator with offsets snapped to the generator's grid k*2^-53: every float operation performed is audited "
+        "against the standard model |fl(x)-x| <= 2^-53|x| and the proved bound of C06_fp_count_bound is evaluated exactly on the real output. "
         "Non-trivial = at least 2 weights and n >= 2 (the answer is not forced); for np.sum: at least 8 summands.")
-MODELLED = ["np.sum is modelled as numpy's pairwise summation (8 accumulators, blocks of 128, 0.+ identity) and checked bit-for-bit (suite np.sum); "
+MODELLED = ["second pass: numpy's validation of p in choice (kahan_sum, NaN / negative / |sum-1| > 2^-26, in that order) is modelled "
+            "(`choiceCheck`) and compared on every rejected vector; the call sites (Reweighter normalisation, the Trainer's in-place "
+            "normalisation, compute_posterior's normalisation and trimming mask) are modelled (`weightsAtResampler`, `iterationResample`, "
+            "`posteriorResampleNoTrim/Trim`); IEEE arithmetic is modelled abstractly as rounded real arithmetic (`Props.C06.Fp.Rnd`: relative "
+            "error 2^-53, monotone, idempotent, no over/underflow) — an assumption audited per operation by suite fp-count-law",
+            "np.sum is modelled as numpy's pairwise summation (8 accumulators, blocks of 128, 0.+ identity) and checked bit-for-bit (suite np.sum); "
             "over the reals it is proved to be the sum (npSum_real)",
-            "numpy legacy RandomState.choice(p=...) is modelled from its algorithm (cumsum, divide by last, searchsorted right); "
-            "its validation of p (ValueError when the compensated sum is off by > 2^-26, negative or NaN entries) is not modelled",
+            "numpy legacy RandomState.choice(p=...) is modelled from its algorithm (cumsum, divide by last, searchsorted right)",
             "MT19937 is not modelled: the uniforms are read from the generator under the same seed (a tape)",
-            "theorems about counts and means are at exact real arithmetic; IEEE rounding of (u0+i)/n and of the running sum is covered only "
-            "empirically by the bit-exact regime F (length/range/monotone/totality are proved for every scalar type, Float included)",
+            "theorems about means and the exact floor/ceil law are at exact real arithmetic; for rounded arithmetic the quantitative count law "
+            "(C06_fp_count_bound) and `a zero-weight particle is never selected` (C06_fp_zero_weight_never) are proved; "
+            "length/range/monotone/totality and the loop specification (C06_syst_loop_spec) are proved for every scalar type, Float included",
             "the gather u[idx], x[idx], ... and the clusterer are outside the Lean model (checked here on tagged particles; owned by C07)"]
-ASSUMPTIONS = ["weights are finite and non-negative (Reweighter output); NaN/inf weights are outside the statement",
+ASSUMPTIONS = ["weights are finite and non-negative (Reweighter output); NaN/inf weights are outside the statement — for the multinomial scheme "
+               "this is no longer an assumption: numpy's own validation establishes it (C06_choice_valid), and inside a run the array handed "
+               "over always passes it (C06_iteration_mult_valid)",
+               "inside a run (execute_iteration, posterior) the weights reaching either routine sum to exactly 1 over the reals "
+               "(weightsAtResampler_real, C06_posterior_law_*), so the literal floor/ceil clause holds there with no side condition; the "
+               "tolerance band of finding F20 is reachable only by calling tools.systematic_resample directly",
+               "a zero-weight particle is never selected — every index, every sum with a positive total, both schemes, exact and rounded "
+               "arithmetic (C06_syst_zero_weight_never, C06_mult_zero_weight_never, C06_fp_zero_weight_never); before /repo 5a51476 the "
+               "last index was selected with weight 0 when the running sum fell short of the last position (fixed finding F36; "
+               "C06_syst_zero_weight_last_deficit is the witness on the old rule `systematicOld`)",
                "numpy.random.random() and random_sample() return values in [0,1)",
                "length / range / monotone / no-exception are proved with no assumption on the weights or their sum (any scalar type). "
                "Count law: exact floor/ceil + closed form for sum(w) = 1 and for the renormalised branch (|sum(w)-1| > 2^-26, law for w/sum(w)); "
@@ -45,7 +70,7 @@ ASSUMPTIONS = ["weights are finite and non-negative (Reweighter output); NaN/inf
                "(C06_syst_count_bound; < 1 + n*2^-26 on the accepted band). The literal floor/ceil clause is false inside the band "
                "(known finding F20: w=[2^-30,1], n=2, u0=0 -> [0,1] although n*w_1 = 2; C06_syst_floor_ceil_needs_exact_sum)",
                "Unbiasedness: Lebesgue integral over u0 in [0,1): exactly n*w_j for sum(w)=1, n*w_j/sum(w) when renormalised; for every sum "
-               "the mean is n*(e_{j+1}-e_j) with bias <= n*|sum(w)-1| (exactly 0 below the last index when sum(w) <= 1, the last index absorbing "
+               "the mean is n*(e_{j+1}-e_j) with bias <= n*|sum(w)-1| (exactly 0 for every index but the last one of positive weight when sum(w) <= 1, that index absorbing "
                "n*(1-sum(w)))",
                "multinomial: n*w_i/sum(w) expected copies is proved for n independent uniform draws (product Lebesgue measure on [0,1)^n); "
                "that MT19937 output behaves as such draws is assumed"]
@@ -218,6 +243,9 @@ def gen_Q_pairs(rng, tier):
         [F(1, 2), F(1, 2)], [F(1, 4)] * 4, [F(1) - F(1, 1024), F(1, 1024)], [F(1, 1024), F(1) - F(1, 1024)],
         [F(1, 8), F(0), F(3, 8), F(0), F(1, 2)], [F(3, 8), F(5, 8)], [F(1, 16)] * 16,
         [F(1, 2 ** 30), F(1)], [F(1), F(1, 2 ** 30)],
+        # trailing zero weights (never to be selected since /repo 5a51476, also at u0 = nextafter(1,0) and with a deficit)
+        [F(1, 2), F(1, 2), F(0)], [F(1, 2), F(1, 2) - F(1, 2 ** 30), F(0)], [F(1, 4)] * 4 + [F(0), F(0)], [F(0), F(1), F(0)],
+        [F(1, 2) - F(1, 2 ** 40), F(1, 2), F(0), F(0)], [F(0), F(0)],
     ]
     for w in fixed:
         for n in (1, 2, 4, 8):
@@ -248,6 +276,9 @@ def gen_Q_pairs(rng, tier):
             sc = rng.choice([F(2), F(1, 2), F(4), F(1, 4)])
             w = [x * sc for x in w]
             tag = f"sum{frac2s(sc)}"
+        if rng.random() < 0.15:
+            w = w + [F(0)] * rng.randint(1, 3)
+            tag += "+trailing-zeros"
         pairs.append((tag, n, w))
     return pairs
 
@@ -265,7 +296,10 @@ def gen_F_pairs(rng, tier):
     """(tag, n, wf) — non-dyadic weight vectors"""
     pairs = [("tenth", 10, [0.1] * 10), ("tenth", 7, [0.1] * 10), ("quarter-1e-9", 4, [0.25 * (1 - 1e-9)] * 4),
              ("docstring", 4, [0.6, 0.2, 0.15, 0.05]), ("third", 3, [1 / 3] * 3), ("third", 6, [1 / 3] * 3),
-             ("allzero", 3, [0.0, 0.0]), ("single", 5, [1.0]), ("single", 1, [0.9999999999999999])]
+             ("allzero", 3, [0.0, 0.0]), ("single", 5, [1.0]), ("single", 1, [0.9999999999999999]),
+             # trailing zero weights with a running sum that falls short of 1 (0.1*10 accumulates to 0.9999999999999999): F36
+             ("trailing-zeros", 1, [0.1] * 10 + [0.0]), ("trailing-zeros", 10, [0.1] * 10 + [0.0]), ("trailing-zeros", 7, [0.1] * 10 + [0.0] * 3),
+             ("trailing-zeros", 1, [0.5, 0.5 - 2.0 ** -30, 0.0]), ("trailing-zeros", 3, [1 / 3] * 3 + [0.0, 0.0])]
     reps = 200 if tier == "quick" else 4000
     for _ in range(reps):
         k = rng.random()
@@ -303,6 +337,9 @@ def gen_F_pairs(rng, tier):
             w = [x * sc for x in _dirichlet(rng, m, 1.0)]
             tag = "unnormalised"
         n = rng.choice([1, 2, 3, 5, 8, 13, 32, 64, m, m, 2 * m + 1])
+        if rng.random() < 0.12:
+            w = list(w) + [0.0] * rng.randint(1, 4)
+            tag += "+trailing-zeros"
         pairs.append((tag, n, w))
     return pairs
 
@@ -526,7 +563,10 @@ def _mult_suite(tier, drv):
 
 
 # ------------------------------------------------------------------ correspondence: Resampler.run and posterior(resample=True)
-def _mk_state(m, rng):
+def _mk_state(m, rng, blobs="float"):
+    """a real StateManager whose pool holds m particles in one or two committed batches; particle k carries its pool index:
+    logl = k, x = 10k, u = (k+.25)/(m+1) and — blobs="float": blob = 100k; blobs="object": blob = {"id": k, "a": array([k])}
+    (object dtype, deep-copied by the accessors since /repo b0f244e); blobs="none": the likelihood returns no blobs."""
     from tempest.state_manager import StateManager
     st = StateManager(n_dim=1)
     cut = rng.randint(1, m - 1) if m >= 2 else m
@@ -534,8 +574,16 @@ def _mk_state(m, rng):
     for hi in ([cut, m] if cut < m else [m]):
         k = hi - lo
         ids = np.arange(lo, hi, dtype=float)
-        st.update_current({"u": (ids.reshape(k, 1) + 0.25) / (m + 1), "x": ids.reshape(k, 1) * 10.0, "logl": ids, "blobs": ids * 100.0,
-                           "beta": 0.5, "iter": 0, "logz": 0.0, "calls": 0, "steps": 1, "efficiency": 1.0, "ess": 1.0, "acceptance": 1.0})
+        d = {"u": (ids.reshape(k, 1) + 0.25) / (m + 1), "x": ids.reshape(k, 1) * 10.0, "logl": ids,
+             "beta": 0.5, "iter": 0, "logz": 0.0, "calls": 0, "steps": 1, "efficiency": 1.0, "ess": 1.0, "acceptance": 1.0}
+        if blobs == "float":
+            d["blobs"] = ids * 100.0
+        elif blobs == "object":
+            b = np.empty(k, dtype=object)
+            for t in range(k):
+                b[t] = {"id": lo + t, "a": np.array([float(lo + t)])}
+            d["blobs"] = b
+        st.update_current(d)
         st.commit_current_to_history()
         lo = hi
     return st
@@ -548,16 +596,22 @@ class _StubClusterer:
         return (np.floor(np.asarray(u)[:, 0] * 1000.0).astype(int)) % 3
 
 
-def _run_resampler(scheme, n, wf, m_rng, u0f=None, seed=None, have_blobs=False, clustering=False, beta=0.5):
+def _run_resampler(scheme, n, wf, m_rng, u0f=None, seed=None, have_blobs=False, clustering=False, beta=0.5, blobs="float"):
     """drive the real Resampler.run; particles carry their pool index in logl (x = 10*index, blob = 100*index), so the indices used are
-    recoverable and the gather can be checked.  beta = 0 is the warm-up branch: nothing is resampled."""
+    recoverable and the gather can be checked.  beta = 0 is the warm-up branch: nothing is resampled.
+    `have_blobs` = the constructor argument (config.blobs_dtype is not None); `blobs` = what the state holds ("none": the property
+    `Resampler.have_blobs` is then just the constructor argument; otherwise it is True whatever was declared: /repo 9130321)."""
     from tempest.steps.resample import Resampler
-    st = _mk_state(len(wf), m_rng)
+    st = _mk_state(len(wf), m_rng, blobs)
     st.set_current("beta", beta)
     clus = _StubClusterer() if clustering else None
     r = Resampler(st, n_particles=n, resample=scheme, clusterer=clus, clustering=clustering, have_blobs=have_blobs)
+    gate = bool(have_blobs) or blobs != "none"
+    if r.have_blobs != gate:
+        return "have_blobs-gate-wrong"
     w = np.array(wf, dtype=float)
     before = {k: st.get_current(k) for k in ("u", "x", "logl", "blobs")}
+    hist_blobs = list(st._history["blobs"])
     try:
         if scheme == "syst":
             with common.patched(np.random, "random", lambda *a, **k: u0f), warnings.catch_warnings():
@@ -573,28 +627,48 @@ def _run_resampler(scheme, n, wf, m_rng, u0f=None, seed=None, have_blobs=False, 
     u = st.get_current("u")
     asg = st.get_current("assignments")
     if beta == 0.0:
-        same = all(np.array_equal(before[k], st.get_current(k)) for k in before)
+        same = all(_same(before[k], st.get_current(k)) for k in before)
         return "skip" if same and asg is not None and len(asg) == n and not np.any(asg) else "beta0-branch-changed-particles"
     idx = [int(round(float(v))) for v in logl]
     m = len(wf)
     coherent = (len(x) == len(idx) == len(u)
                 and all(float(x[k, 0]) == 10.0 * idx[k] and float(u[k, 0]) == (idx[k] + 0.25) / (m + 1) for k in range(len(idx))))
-    if have_blobs:
-        b = st.get_current("blobs")
-        coherent = coherent and len(b) == len(idx) and all(float(b[k]) == 100.0 * idx[k] for k in range(len(idx)))
+    b = st.get_current("blobs")
+    if not gate:
+        coherent = coherent and b is None          # nothing declared, nothing returned: the slot stays empty
+    elif blobs == "object":
+        coherent = (coherent and b is not None and len(b) == len(idx)
+                    and all(b[k]["id"] == idx[k] and float(b[k]["a"][0]) == float(idx[k]) for k in range(len(idx))))
+        # the stored objects are copies: writing into what the accessor returned must not reach the state or the history
+        if coherent and len(idx):
+            b[0]["a"][0] = -1.0
+            again = st.get_current("blobs")
+            pool = np.concatenate(hist_blobs)
+            coherent = float(again[0]["a"][0]) == float(idx[0]) and all(float(pool[t]["a"][0]) == float(t) for t in range(m))
+    else:
+        coherent = coherent and b is not None and len(b) == len(idx) and all(float(b[k]) == 100.0 * idx[k] for k in range(len(idx)))
     want_asg = clus.predict(u) if clustering else np.zeros(n, dtype=int)
     coherent = coherent and asg is not None and np.array_equal(np.asarray(asg), want_asg)
     return idx if coherent else "incoherent-gather"
 
 
+def _same(a, b):
+    if a is None or b is None:
+        return a is None and b is None
+    a, b = np.asarray(a), np.asarray(b)
+    if a.dtype == object or b.dtype == object:
+        return len(a) == len(b) and all(p["id"] == q["id"] for p, q in zip(a, b))
+    return np.array_equal(a, b)
+
+
 def _run_line(beta0, scheme, n, wf, u0f=0.0, us=()):
-    return (f"run.F beta0={1 if beta0 else 0} scheme={scheme} n={n} w={flist(wf, f2hex)} u0={f2hex(u0f)} "
+    return (f"c06x.run.F beta0={1 if beta0 else 0} scheme={scheme} n={n} w={flist(wf, f2hex)} u0={f2hex(u0f)} "
             f"us={flist(us, f2hex)}")
 
 
 def _resampler_suite(tier, drv):
-    c = Corr("Resampler.run", "bit-exact (Float model `resamplerRun`, np.sum inside); indices recovered from tagged particles of a real "
-             "StateManager history; gather of u/x/logl/blobs and labels checked on the way")
+    c = Corr("Resampler.run", "bit-exact (Float model `resamplerRunX`: np.sum and numpy's validation of p inside); indices recovered from "
+             "tagged particles of a real StateManager history; gather of u/x/logl/blobs and labels checked on the way")
     rng = common.rng_for("C06.run")
     st = np.random.get_state()
     jobs = []
@@ -602,18 +676,36 @@ def _resampler_suite(tier, drv):
         for _ in range(300 if tier == "quick" else 4000):
             m = rng.randint(1, 10) if rng.random() < 0.7 else rng.randint(11, 120)
             k = rng.random()
+            wtag = "normalised"
             if k < 0.3:
                 B = rng.choice([2, 3, 4, 6])
                 wf = [p / 2 ** B for p in _composition(rng, 2 ** B, m)]
-            elif k < 0.8:
+            elif k < 0.7:
                 wf = _dirichlet(rng, m, rng.choice([0.1, 1.0, 10.0]))
-            else:
+            elif k < 0.8:
                 wf = _dirichlet(rng, m, 1.0)
                 wf[rng.randrange(m)] = 0.0
                 s = sum(wf)
                 wf = [x / s for x in wf] if s > 0 else [1.0 / m] * m
+                wtag = "zeros"
+            elif k < 0.9:
+                # sum off by an amount on either side of the tolerance both routines use (2^-26 ~ 1.49e-8)
+                d = rng.choice([1e-6, 1e-7, 3e-8, 1.6e-8, 1.4e-8, 1e-8, 1e-9]) * rng.choice([1, -1])
+                wf = [x * (1 + d) for x in _dirichlet(rng, m, 1.0)]
+                wtag = "sum-off-%g" % abs(d)
+            elif k < 0.95:
+                wf = [x * rng.choice([3.7, 0.01, 2.0]) for x in _dirichlet(rng, m, 1.0)]
+                wtag = "unnormalised"
+            else:
+                wf = _dirichlet(rng, m, 1.0)
+                i = rng.randrange(m)
+                wf[i] = rng.choice([-wf[i], -1e-300, -0.0, float("nan")])
+                wtag = "negative/-0/nan entry"
             n = rng.choice([1, 2, 4, 7, 16, 33, m])
-            opts = {"have_blobs": rng.random() < 0.4, "clustering": rng.random() < 0.4}
+            # the blob gate: (declared, what the state holds); declared-but-absent cannot arise (a declared dtype makes _log_like pack blobs)
+            declared, held = rng.choice([(False, "none"), (False, "float"), (True, "float"), (False, "object"), (True, "object")])
+            opts = {"have_blobs": declared, "blobs": held, "clustering": rng.random() < 0.4}
+            c.count("w:" + wtag)
             if rng.random() < 0.08:
                 # warm-up branch (beta = 0): no resampling, particles untouched, labels all 0
                 scheme = rng.choice(["syst", "mult"])
@@ -627,9 +719,11 @@ def _resampler_suite(tier, drv):
                 c.count("branch:unknown-scheme")
                 jobs.append((_run_line(False, "stratified", n, wf, 0.5, []), "other", n, wf, impl, {"scheme": "stratified"}))
                 continue
-            for k_, v_ in opts.items():
-                c.count(f"{k_}={v_}")
+            c.count(f"blobs: declared={declared}, state holds {held}")
+            c.count(f"clustering={opts['clustering']}")
             if rng.random() < 0.5:
+                if any(x != x for x in wf):
+                    continue      # NaN weights are outside the statement (and the systematic loop has no validation to compare)
                 u0f = rng.choice([0.0, ONE_M, rng.random(), rng.random()])
                 impl = _run_resampler("syst", n, wf, rng, u0f=u0f, **opts)
                 jobs.append((_run_line(False, "syst", n, wf, u0f, []), "syst", n, wf, impl, {"u0_hex": f2hex(u0f)}))
@@ -638,8 +732,7 @@ def _resampler_suite(tier, drv):
                 us = _uniforms(seed, n)
                 impl = _run_resampler("mult", n, wf, rng, seed=seed, **opts)
                 if impl == "ValueError":
-                    c.count("numpy-rejected")
-                    continue
+                    c.count("numpy-rejected (compared: the model must reject too)")
                 jobs.append((_run_line(False, "mult", n, wf, 0.0, us), "mult", n, wf, impl, {"seed": seed}))
     finally:
         np.random.set_state(st)
@@ -654,7 +747,9 @@ def _resampler_suite(tier, drv):
 
 
 def _posterior_suite(tier, drv):
-    c = Corr("posterior(resample=True)", "bit-exact (Float model `posteriorResample`, n = len(w), np.sum inside) on the weights the real compute_posterior passes to systematic_resample")
+    c = Corr("posterior(resample=True)", "bit-exact: (a) Float model `posteriorResample` (n = len(w), np.sum inside) on the weights the real "
+             "compute_posterior passes to systematic_resample; (b) Float models `posteriorResampleNoTrim` / `posteriorResampleTrim` from "
+             "exp(logw - max) through the in-place normalisations (and the mask trim_weights stopped at) to the indices")
     import tempest.tools as T
     from . import witnesses
     rng = common.rng_for("C06.post")
@@ -669,41 +764,322 @@ def _posterior_suite(tier, drv):
                 s._core._initialize_fresh()
                 for _ in range(4):
                     s.sample()
+                logw, _ = s.state.compute_logw_and_logz(1.0)
+                w0 = [float(t) for t in np.exp(logw - np.max(logw))]       # the first line of compute_posterior, same operations
             orig = T.systematic_resample
+            orig_trim = T.trim_weights
             for trim in (True, False):
                 for u0f in [0.0, ONE_M] + [rng.random() for _ in range(8)]:
-                    rec = []
+                    rec, rect = [], []
 
                     def wrap(size, weights, random_state=None):
                         r = orig(size, weights, random_state)
                         rec.append((int(size), [float(x) for x in np.asarray(weights, dtype=float)], [int(i) for i in r]))
                         return r
-                    with common.patched(T, "systematic_resample", wrap), common.patched(np.random, "random", lambda *a, **k: u0f), \
-                            warnings.catch_warnings():
+
+                    def wrapt(samples, weights, ess=0.99, bins=1000):
+                        n_in = len(weights)
+                        r = orig_trim(samples, weights, ess=ess, bins=bins)
+                        rect.append((n_in, [int(i) for i in r[0]]))
+                        return r
+                    with common.patched(T, "systematic_resample", wrap), common.patched(T, "trim_weights", wrapt), \
+                            common.patched(np.random, "random", lambda *a, **k: u0f), warnings.catch_warnings():
                         warnings.simplefilter("ignore")
                         try:
                             x, w, logl = s.posterior(resample=True, trim_importance_weights=trim)
                         except Exception as e:  # noqa
                             c.disagree(input=f"posterior seed={sd} trim={trim} u0={u0f!r}", impl=type(e).__name__, model="no exception")
                             continue
-                    if len(rec) != 1:
-                        c.disagree(input=f"posterior seed={sd} trim={trim}", impl=f"{len(rec)} calls of systematic_resample", model="1 call")
+                    if len(rec) != 1 or len(rect) != (1 if trim else 0):
+                        c.disagree(input=f"posterior seed={sd} trim={trim}",
+                                   impl=f"{len(rec)} calls of systematic_resample, {len(rect)} of trim_weights", model="1 call / %d" % trim)
                         continue
                     n, wf, idx = rec[0]
                     ok_shape = (n == len(wf) and len(x) == n and len(logl) == n and len(w) == n
                                 and all(float(t) == 1.0 / n for t in w))
-                    jobs.append((f"post.F w={flist(wf, f2hex)} u0={f2hex(u0f)}", n, wf, u0f, idx if ok_shape else "bad-shape", sd, trim))
+                    impl = idx if ok_shape else "bad-shape"
+                    jobs.append((f"post.F w={flist(wf, f2hex)} u0={f2hex(u0f)}", n, wf, u0f, impl, sd, trim, "received"))
+                    if trim:
+                        n_in, kept = rect[0]
+                        keep = [0] * n_in
+                        for i in kept:
+                            keep[i] = 1
+                        if n_in != len(w0):
+                            impl = "trim_weights saw %d weights, history has %d" % (n_in, len(w0))
+                        jobs.append((f"c06x.posttrim.F w={flist(w0, f2hex)} keep={flist(keep, str)} u0={f2hex(u0f)}", n, w0, u0f, impl, sd, trim,
+                                     "from exp(logw-max), trimmed %d -> %d" % (n_in, len(kept))))
+                    else:
+                        jobs.append((f"c06x.postnt.F w={flist(w0, f2hex)} u0={f2hex(u0f)}", n, w0, u0f, impl, sd, trim, "from exp(logw-max)"))
     finally:
         np.random.set_state(st)
     res = drv.batch([j[0] for j in jobs])
-    for (line, n, wf, u0f, impl, sd, trim), ans in zip(jobs, res):
-        c.case((sd, trim, f2hex(u0f)), len(wf) >= 2 and n >= 2)
+    for (line, n, wf, u0f, impl, sd, trim, how), ans in zip(jobs, res):
+        c.case((sd, trim, f2hex(u0f), how), len(wf) >= 2 and n >= 2)
         c.count("trim" if trim else "no-trim")
+        c.count("model:" + how.split(",")[0])
         if _show(impl) != ans:
-            c.disagree(input=line[:400], impl=_show(impl)[:300], model=ans[:300], kind="syst", n=n, w_hex=[f2hex(x) for x in wf],
-                       u0_hex=f2hex(u0f))
+            c.disagree(input=line[:400], impl=_show(impl)[:300], model=ans[:300], kind="post", seed=sd, trim=trim, n=n,
+                       w_hex=[f2hex(x) for x in wf], u0_hex=f2hex(u0f))
         c.sample({"op": line[:200] + "...", "impl": _show(impl)[:80], "model": ans[:80]})
     return c
+
+
+# ------------------------------------------------------------------ correspondence: numpy's validation of p
+def _real_choice_verdict(n, wf):
+    st = np.random.get_state()
+    try:
+        np.random.seed(1)
+        with warnings.catch_warnings():
+            warnings.simplefilter("ignore")
+            try:
+                np.random.choice(np.arange(len(wf)), size=n, replace=True, p=np.array(wf, dtype=float))
+                return "ok"
+            except ValueError as e:
+                msg = str(e)
+                for key, tag in (("cannot be empty", "emptyPop"), ("contain NaN", "nan"), ("not non-negative", "negative"),
+                                 ("do not sum to 1", "notSumOne")):
+                    if key in msg:
+                        return tag
+                return "ValueError:" + msg[:60]
+    finally:
+        np.random.set_state(st)
+
+
+def _validation_suite(tier, drv):
+    c = Corr("choice-validation", "exact decision (Float model of numpy's kahan_sum and of the checks `choice` makes on p, in numpy's order) "
+             "vs the message of the ValueError the real np.random.choice raises / its acceptance")
+    rng = common.rng_for("C06.valid")
+    T = Fraction(1, 2 ** 26)
+    jobs = []
+    for _ in range(500 if tier == "quick" else 8000):
+        m = rng.choice([1, 2, 3, 5, 8, 17, 64, 200, rng.randint(1, 400)])
+        base = [Fraction(x) for x in _dirichlet(rng, m, rng.choice([0.1, 1.0, 10.0]))]
+        S = sum(base, Fraction(0))
+        k = rng.random()
+        if k < 0.55:
+            # exact sum within a few ulps of one of the two acceptance thresholds 1 +- 2^-26: the decision hangs on the last bits of
+            # the compensated sum (a plain or pairwise sum decides differently on some of these)
+            side = rng.choice([1, -1])
+            target = 1 + side * T + Fraction(rng.randint(-6, 6), 2 ** 54)
+            wf = [float(x * target / S) for x in base]
+            tag = "threshold 1%s2^-26 +- ulps" % ("+" if side > 0 else "-")
+        elif k < 0.7:
+            d = rng.choice([1e-6, 1e-7, 2e-8, 1e-8, 1e-9, 0.0]) * rng.choice([1, -1])
+            wf = [float(x) * (1 + d) for x in base]
+            tag = "sum-off"
+        elif k < 0.8:
+            wf = [float(x) for x in base]
+            i = rng.randrange(m)
+            wf[i] = rng.choice([-wf[i], -1e-300, -5e-324, -0.0])
+            tag = "negative or -0 entry"
+        elif k < 0.86:
+            wf = [float(x) for x in base]
+            wf[rng.randrange(m)] = rng.choice([float("nan"), float("inf")])
+            if rng.random() < 0.3:
+                wf[rng.randrange(m)] = -1.0        # NaN is reported before negativity
+            tag = "nan/inf entry"
+        elif k < 0.9:
+            wf = []
+            tag = "empty"
+        else:
+            # cancellation-prone: a huge entry and its tiny companions (Kahan keeps what a plain running sum loses)
+            wf = [float(x) * 2.0 ** -30 for x in base] + [1.0 - 2.0 ** -30]
+            rng.shuffle(wf)
+            tag = "one dominant entry"
+        n = rng.choice([1, 3]) if wf else 2
+        jobs.append((f"c06x.check.F size={n} w={flist(wf, f2hex)}", n, wf, tag))
+    res = drv.batch([j[0] for j in jobs])
+    for (line, n, wf, tag), ans in zip(jobs, res):
+        impl = _real_choice_verdict(n, wf)
+        c.case((n, [f2hex(x) for x in wf]), len(wf) >= 2)
+        c.count("w:" + tag)
+        c.count("verdict:" + impl)
+        if wf and impl in ("ok", "notSumOne") and all(x == x and x >= 0 for x in wf):
+            plain = "notSumOne" if abs(_np_sum(wf) - 1.0) > SQRTEPS else "ok"
+            if plain != impl:
+                c.count("sensitivity: np.sum in place of kahan_sum would decide differently")
+        if impl != ans:
+            c.disagree(input=line[:400], impl=impl, model=ans, kind="valid", n=n, w_hex=[f2hex(x) for x in wf])
+        c.sample({"op": line[:200], "impl": impl, "model": ans})
+    return c
+
+
+# ------------------------------------------------------------------ correspondence: the call site inside execute_iteration
+def _observe_iterations(scheme, vv, sd, n_iter, **kw_extra):
+    """real Sampler.sample() iterations with three observation points: the unnormalised weights handed to
+    Reweighter._finalize_iteration, the (array, offset / uniforms, result) of the resampling routine called from Resampler.run,
+    and the state's beta when Resampler.run is entered.  Nothing is replaced: the generator stream is the run's own.
+    Returns one dict per iteration: {w0 (None in the very first iteration), beta, recv, calls=[(kind, n, draws, idx)], pool}."""
+    import tempest.steps.resample as RS
+    from tempest.steps.reweight import Reweighter
+    from tempest.steps.resample import Resampler
+    from . import witnesses
+    out = []
+    st = np.random.get_state()
+    try:
+        with contextlib.redirect_stdout(io.StringIO()), warnings.catch_warnings():
+            warnings.simplefilter("ignore")
+            np.random.seed(sd)
+            kw = dict(clustering=False, n_particles=16, resample=scheme)
+            kw.update(kw_extra)
+            if vv is not None:
+                kw["volume_variation"] = vv
+            s = witnesses._mk_sampler(**kw)
+            s._core._initialize_fresh()
+            orig_fin = Reweighter._finalize_iteration
+            orig_run = Resampler.run
+            orig_syst = RS.systematic_resample
+            orig_random = np.random.random
+            orig_choice = np.random.choice
+            rec = {}
+
+            def fin(self, beta, weights, ess_est, logz):
+                rec["w0"] = [float(t) for t in np.asarray(weights, dtype=float)]
+                return orig_fin(self, beta, weights, ess_est, logz)
+
+            def run(self, weights):
+                rec["beta"] = float(self.state.get_current("beta"))
+                rec["recv"] = [float(t) for t in np.asarray(weights, dtype=float)]
+                rec["pool"] = int(sum(len(b) for b in self.state._history["logl"]))
+                rec["inside"] = True
+                try:
+                    return orig_run(self, weights)
+                finally:
+                    rec["inside"] = False
+                    u = self.state.get_current("u")
+                    rec["n_out"] = None if u is None else len(u)
+
+            def syst(size, weights, random_state=None):
+                got = []
+
+                def rnd(*a, **k):
+                    v = orig_random(*a, **k)
+                    got.extend(float(t) for t in np.atleast_1d(v))      # one offset is the systematic scheme; anything else is reported
+                    return v
+                with common.patched(np.random, "random", rnd):
+                    r = orig_syst(size, weights, random_state)
+                rec.setdefault("calls", []).append(("syst", int(size), got, [int(i) for i in r]))
+                return r
+
+            def choice(*a, **k):
+                if not rec.get("inside"):
+                    return orig_choice(*a, **k)
+                before = np.random.get_state()
+                r = orig_choice(*a, **k)
+                after = np.random.get_state()
+                np.random.set_state(before)
+                us = [float(t) for t in np.random.random_sample(int(k.get("size")))]
+                np.random.set_state(after)
+                rec.setdefault("calls", []).append(("mult", int(k.get("size")), us, [int(i) for i in r]))
+                return r
+            with common.patched(Reweighter, "_finalize_iteration", fin), common.patched(Resampler, "run", run), \
+                    common.patched(RS, "systematic_resample", syst), common.patched(np.random, "choice", choice):
+                for it in range(n_iter):
+                    rec.clear()
+                    s.sample()
+                    out.append({"w0": rec.get("w0"), "beta": rec.get("beta"), "recv": rec.get("recv"), "calls": list(rec.get("calls", [])),
+                                "pool": rec.get("pool"), "n_out": rec.get("n_out")})
+    finally:
+        np.random.set_state(st)
+    return out
+
+
+def _iteration_cfgs(tier):
+    if tier == "quick":
+        return [("syst", None, 5), ("mult", None, 11), ("syst", 0.2, 7), ("mult", 0.2, 13)], 9
+    return [("syst", None, 5), ("mult", None, 11), ("syst", 0.2, 7), ("mult", 0.2, 13), ("syst", None, 19), ("mult", None, 23),
+            ("syst", 0.05, 29), ("mult", 0.5, 31)], 12
+
+
+def _iteration_suite(tier, drv):
+    c = Corr("execute_iteration", "bit-exact (Float models `weightsAtResampler` and `iterationResample`): the array the real resampler "
+             "receives after Reweighter + Trainer (in-place normalisation) and the indices it gathers with, from the unnormalised weights")
+    jobs = []
+    cfgs, n_iter = _iteration_cfgs(tier)
+    for scheme, vv, sd in cfgs:
+        for it, o in enumerate(_observe_iterations(scheme, vv, sd, n_iter)):
+            if o["w0"] is None:
+                c.count("first iteration (uniform weights, no pool yet)")
+                continue
+            w0, beta, calls = o["w0"], o["beta"], o["calls"]
+            b0 = beta == 0.0
+            key = (scheme, vv, sd, it)
+            jobs.append((f"c06x.watr.F beta0={int(b0)} w={flist(w0, f2hex)}", key, "array", flist(o["recv"], f2hex), len(w0)))
+            if b0:
+                impl = "skip" if not calls else "resampled-at-beta-0"
+                jobs.append((f"c06x.iter.F beta0=1 scheme={scheme} n=16 w={flist(w0, f2hex)} u0={f2hex(0.0)} us=-", key,
+                             "beta=0", impl, len(w0)))
+            elif len(calls) != 1 or calls[0][0] != scheme:
+                jobs.append(("c06x.iter.F beta0=0 scheme=other n=0 w=- u0=0/1 us=-", key, "calls",
+                             "%d resampling calls %s" % (len(calls), [t[0] for t in calls]), len(w0)))
+            else:
+                kind, n, draws, idx = calls[0]
+                u0f = draws[0] if kind == "syst" and len(draws) == 1 else 0.0
+                us = draws if kind == "mult" else []
+                impl = idx if (kind == "mult" or len(draws) == 1) else "systematic drew %d offsets" % len(draws)
+                jobs.append((f"c06x.iter.F beta0=0 scheme={scheme} n={n} w={flist(w0, f2hex)} u0={f2hex(u0f)} us={flist(us, f2hex)}",
+                             key, "beta>0", _show(impl), len(w0)))
+    res = drv.batch([j[0] for j in jobs])
+    for (line, key, what, impl, m), ans in zip(jobs, res):
+        c.case((key, what), m >= 2)
+        c.count("observed:" + what)
+        c.count("scheme:%s vv=%s" % (key[0], key[1]))
+        if impl != ans:
+            c.disagree(input=line[:300], impl=impl[:200], model=ans[:200], kind="iter", key=list(key), what=what)
+        c.sample({"op": line[:160] + "...", "impl": impl[:80], "model": ans[:80]})
+    return c
+
+
+def oracle_iteration(scheme, vv, sd, n_iter):
+    """the property inside a real run: every annealing iteration resamples exactly once with `n_particles` valid indices, from a
+    non-negative weight vector over the whole pool whose sum is 1 within the routines' own tolerance; the point-wise laws hold for
+    the offset / uniforms the run drew; nothing is resampled while beta = 0.  Returns a message or None."""
+    try:
+        obs = _observe_iterations(scheme, vv, sd, n_iter)
+    except Exception as e:  # noqa
+        return f"a real run (resample={scheme!r}, seed {sd}) raised {type(e).__name__}: {e}"
+    for it, o in enumerate(obs):
+        if o["w0"] is None:
+            continue
+        where = f"iteration {it} of a real run (resample={scheme!r}, volume_variation={vv}, seed {sd})"
+        if o["beta"] == 0.0:
+            if o["calls"]:
+                return f"{where}: resampled although beta = 0"
+            continue
+        if len(o["calls"]) != 1:
+            return f"{where}: {len(o['calls'])} resampling calls"
+        kind, n, draws, idx = o["calls"][0]
+        recv = o["recv"]
+        if len(recv) != o["pool"]:
+            return f"{where}: {len(recv)} weights for a pool of {o['pool']} particles"
+        if any(not (x >= 0.0) for x in recv):
+            return f"{where}: a weight handed to the resampler is negative or NaN"
+        S = sum((Fraction(x) for x in recv), Fraction(0))
+        if abs(S - 1) > Fraction(1, 2 ** 26):
+            return f"{where}: the weights handed to the resampler sum to {float(S)!r}, outside the tolerance 2^-26"
+        if n != 16 or len(idx) != 16 or o["n_out"] != 16:
+            return f"{where}: asked for {n} indices, got {len(idx)}, current set has {o['n_out']} particles (n_particles = 16)"
+        if any(i < 0 or i >= len(recv) for i in idx):
+            return f"{where}: index out of range"
+        if kind == "syst":
+            if len(draws) != 1:
+                return f"{where}: systematic scheme drew {len(draws)} offsets"
+            msg = oracle_syst(n, recv, draws[0], lambda n_, w_, u_: idx)
+            if msg:
+                return f"{where}: {msg}"
+        else:
+            if any(recv[i] == 0.0 for i in idx):
+                return f"{where}: a zero-weight particle was drawn"
+            cdf, cc = [], Fraction(0)
+            for x in recv:
+                cc += Fraction(x)
+                cdf.append(cc / S)
+            tol = Fraction(1, 10 ** 12)
+            for k, (u, i) in enumerate(zip(draws, idx)):
+                lo = cdf[i - 1] if i > 0 else Fraction(0)
+                if not (lo - tol <= Fraction(u) < cdf[i] + tol):
+                    return f"{where}: draw {k}: uniform {u!r} gave index {i}, whose cell is [{float(lo)!r}, {float(cdf[i])!r})"
+    return None
 
 
 def correspond(tier):
@@ -717,9 +1093,124 @@ def correspond(tier):
     out = [pre] + _syst_suites(tier, drv)
     out.append(_npsum_suite(tier, drv))
     out.append(_mult_suite(tier, drv))
+    out.append(_validation_suite(tier, drv))
     out.append(_resampler_suite(tier, drv))
     out.append(_posterior_suite(tier, drv))
+    out.append(_iteration_suite(tier, drv))
+    out.append(_fp_suite(tier))
     return out
+
+
+# ------------------------------------------------------------------ the count law in floating point (Props/C06Fp.lean)
+FP_EPS = Fraction(1, 2 ** 53)
+FP_C_POS = 6        # C06_fp_count_bound:  |count_j - n v_j| < 1 + n (|S - 1| + FP_C_POS eps + FP_C_SUM m eps S)
+FP_C_SUM = 4
+
+
+def _effective_float(wf):
+    """the weight vector the loop of the real systematic_resample works on (same numpy operations), or None if not finite / negative"""
+    arr = np.array(wf, dtype=float)
+    with warnings.catch_warnings():
+        warnings.simplefilter("ignore")
+        s = float(np.sum(arr))
+        if abs(s - 1.0) > SQRTEPS:
+            arr = arr / s
+    if not np.all(np.isfinite(arr)) or np.any(arr < 0):
+        return None, s
+    return [float(x) for x in arr], s
+
+
+def fp_audit(n, wf, u0f):
+    """H_fp on the operations systematic_resample performs on this input: every float result r of an exact value e satisfies
+    |r - e| <= 2^-53 |e| (the standard model of IEEE arithmetic the theorems of Props/C06Fp.lean assume).  Message or None."""
+    v, s = _effective_float(wf)
+    if v is None:
+        return None
+    def bad(r, e):
+        return abs(Fraction(r) - e) > FP_EPS * abs(e)
+    if abs(s - 1.0) > SQRTEPS:
+        for a, b in zip(v, wf):
+            if bad(a, Fraction(b) / Fraction(s)):
+                return f"w_j/s: {b!r}/{s!r} -> {a!r}"
+    if n > 0:
+        t1 = u0f + np.arange(n)
+        pos = t1 / n
+        for i in range(n):
+            if bad(float(t1[i]), Fraction(u0f) + i):
+                return f"u0+i: {u0f!r}+{i} -> {float(t1[i])!r}"
+            if bad(float(pos[i]), Fraction(float(t1[i])) / n):
+                return f"(u0+i)/n: {float(t1[i])!r}/{n} -> {float(pos[i])!r}"
+    c = v[0] if v else 0.0
+    for x in v[1:]:
+        c2 = c + x
+        if bad(c2, Fraction(c) + Fraction(x)):
+            return f"running sum: {c!r}+{x!r} -> {c2!r}"
+        c = c2
+    return None
+
+
+def oracle_fp(n, wf, u0f, run=_real_syst):
+    """the proved floating-point count law on the REAL output: for effective weights v >= 0 (w, or w/np.sum(w) when renormalised) with
+    exact sum S, |count_j - n v_j| < 1 + n (|S-1| + 6 eps + 4 m eps S), eps = 2^-53, and an index whose weight is 0 receives no copy.  Exact rational arithmetic; cannot fire on code that performs the modelled operations in IEEE doubles."""
+    m = len(wf)
+    if m == 0 or n < 1:
+        return None
+    v, _ = _effective_float(wf)
+    if v is None:
+        return None
+    r = run(n, wf, u0f)
+    if isinstance(r, str) or len(r) != n or any(i < 0 or i >= m for i in r):
+        return oracle_syst(n, wf, u0f, lambda *_: r)
+    counts = [0] * m
+    for i in r:
+        counts[i] += 1
+    V = [Fraction(x) for x in v]
+    S = sum(V, Fraction(0))
+    B = 1 + n * (abs(S - 1) + FP_C_POS * FP_EPS + FP_C_SUM * m * FP_EPS * S)
+    for j in range(m):
+        if abs(counts[j] - n * V[j]) >= B:
+            return (f"index {j} copied {counts[j]} times but n*v_j = {float(n * V[j])!r} (effective weights sum to 1{float(S - 1):+.3g}; "
+                    f"proved bound |count - n v_j| < {float(B)!r}); indices {r[:12]}")
+        if V[j] == 0 and counts[j] and S > 0:
+            return f"zero-weight index {j} copied {counts[j]} times; indices {r[:12]}"
+    return None
+
+
+def _fp_suite(tier):
+    c = Corr("fp-count-law", "exact rational check, on the REAL outputs, of the count law proved for rounded arithmetic (C06_fp_count_bound, "
+             "C06_fp_zero_weight_never) + audit that every operation performed obeys the standard model |fl(x) - x| <= 2^-53 |x| it assumes")
+    rng = common.rng_for("C06.fp")
+    pairs = [p for p in gen_F_pairs(rng, "quick") if len(p[2]) <= 120 and p[1] <= 130]
+    if tier != "quick":
+        pairs += [p for p in gen_F_pairs(rng, "quick") if len(p[2]) <= 300 and p[1] <= 700]
+    pairs += [("trailing-zeros", n, [0.1] * 10 + [0.0] * k) for n in (1, 3, 10) for k in (1, 3)]
+    pairs += [("zeros", 5, [0.0, 0.5, 0.0, 0.0, 0.5, 0.0]), ("zeros", 4, [0.0, 0.0, 1.0])]
+    for tag, n, wf in pairs:
+        for otag, u0f in F_offsets(rng, n, wf, 3, 2):
+            # numpy's random() returns multiples of 2^-53: snap the adversarial offsets onto that grid (a subnormal offset, which the
+            # generator cannot produce, would underflow in (u0+i)/n and leave the relative-error model)
+            u0f = math.floor(u0f * 2.0 ** 53) / 2.0 ** 53
+            v, s = _effective_float(wf)
+            if v is None or not wf or n < 1:
+                c.count("outside the hypotheses (empty / n = 0 / negative or non-finite effective weights)")
+                continue
+            c.case((n, [f2hex(x) for x in wf], f2hex(u0f)), len(wf) >= 2 and n >= 2)
+            c.count("w:" + tag)
+            c.count("u0:" + otag)
+            c.count("renormalised" if abs(s - 1.0) > SQRTEPS else ("sum==1" if s == 1.0 else "within-tolerance"))
+            if any(x == 0.0 for x in v):
+                c.count("has a zero weight" + (" (trailing)" if v[-1] == 0.0 else ""))
+            a = fp_audit(n, wf, u0f)
+            if a:
+                c.disagree(input=f"n={n} m={len(wf)} u0={u0f!r}", impl="an operation outside the standard model: " + a,
+                           model="|fl(x) - x| <= 2^-53 |x|", kind="fp", n=n, w_hex=[f2hex(x) for x in wf], u0_hex=f2hex(u0f))
+                continue
+            msg = oracle_fp(n, wf, u0f)
+            if msg:
+                c.disagree(input=f"n={n} m={len(wf)} u0={u0f!r}", impl=msg, model="C06_fp_count_bound", kind="fp", n=n,
+                           w_hex=[f2hex(x) for x in wf], u0_hex=f2hex(u0f))
+            c.sample({"op": f"n={n} m={len(wf)} u0={u0f!r}", "impl": "law holds", "model": "law holds"})
+    return c
 
 
 # ------------------------------------------------------------------ property oracle on the real code
@@ -737,10 +1228,15 @@ def oracle_syst(n, wf, u0f, run=_real_syst):
         return f"index out of range 0..{m - 1}: {[i for i in r if i < 0 or i >= m][:3]}"
     if any(a > b for a, b in zip(r, r[1:])):
         return f"indices not non-decreasing: {r[:12]}"
+    if any(not (x >= 0.0) or x == float("inf") for x in wf):
+        return None          # negative / NaN / inf weights are outside the statement
     w = [Fraction(x) for x in wf]
     S = sum(w, Fraction(0))
     if S <= 0:
         return None
+    zsel = [i for i in r if wf[i] == 0.0]
+    if zsel:
+        return f"zero-weight particle {zsel[0]} was selected (n*w_i = 0 copies expected, every offset); indices {r[:12]}"
     counts = [0] * m
     for i in r:
         counts[i] += 1
@@ -826,13 +1322,16 @@ def oracle_posterior(sd, trim, u0f):
     from . import witnesses
     st = np.random.get_state()
     try:
-        with contextlib.redirect_stdout(io.StringIO()), warnings.catch_warnings():
-            warnings.simplefilter("ignore")
-            np.random.seed(sd)
-            s = witnesses._mk_sampler(clustering=False, n_particles=16)
-            s._core._initialize_fresh()
-            for _ in range(4):
-                s.sample()
+        try:
+            with contextlib.redirect_stdout(io.StringIO()), warnings.catch_warnings():
+                warnings.simplefilter("ignore")
+                np.random.seed(sd)
+                s = witnesses._mk_sampler(clustering=False, n_particles=16)
+                s._core._initialize_fresh()
+                for _ in range(4):
+                    s.sample()
+        except Exception as e:  # noqa
+            return f"a real run (default configuration, 16 particles, seed {sd}) raised {type(e).__name__}: {e}"
         orig = T.systematic_resample
         rec = []
 
@@ -892,6 +1391,22 @@ def search(tier, hints):
                 msg = oracle_mult(h["n"], wf, h["seed"])
                 if msg and add({"what": msg, "kind": "mult", "n": h["n"], "w_hex": h["w_hex"], "seed": h["seed"]}):
                     return found
+            elif h.get("kind") == "post" and "seed" in h:
+                msg = oracle_posterior(h["seed"], h["trim"], hex2f(h["u0_hex"]))
+                if msg and add({"what": msg, "kind": "posterior", "seed": h["seed"], "trim": h["trim"], "u0": hex2f(h["u0_hex"]),
+                                "u0_hex": h["u0_hex"]}):
+                    return found
+            elif h.get("kind") == "iter" and "key" in h:
+                scheme, vv, sd, it = h["key"]
+                msg = oracle_iteration(scheme, vv, sd, it + 1)
+                if msg and add({"what": msg, "kind": "iteration", "scheme": scheme, "vv": vv, "seed": sd, "n_iter": it + 1}):
+                    return found
+            elif h.get("kind") == "fp" and "u0_hex" in h:
+                wf = [hex2f(x) for x in h["w_hex"]]
+                u0f = hex2f(h["u0_hex"])
+                msg = oracle_fp(h["n"], wf, u0f)
+                if msg and add(dict(_fail_syst(msg, h["n"], wf, u0f), kind="fp")):
+                    return found
         except Exception as e:  # noqa
             if add({"what": f"oracle crashed on a disagreeing input: {type(e).__name__}: {e}", "kind": "crash", "hint": str(h)[:300]}):
                 return found
@@ -947,6 +1462,12 @@ def search(tier, hints):
                         if add({"what": msg, "kind": "posterior", "seed": sd, "trim": trim, "u0": u0f, "u0_hex": f2hex(u0f)}):
                             return found
                         break
+    # 3d. the call site inside real runs (both schemes, both metric modes)
+    if len(found) < 5:
+        for scheme, vv, sd in _iteration_cfgs("quick")[0]:
+            msg = oracle_iteration(scheme, vv, sd, 7)
+            if msg and add({"what": msg, "kind": "iteration", "scheme": scheme, "vv": vv, "seed": sd, "n_iter": 7}):
+                return found
     # 4. multinomial through Resampler.run
     for tag, wf in _mult_weights(common.rng_for("C06.searchM"), "quick"):
         wz = list(wf)
@@ -971,6 +1492,12 @@ def replay(obj):
         return witnesses.ALL[f["replay"]["witness"]]()
     if f.get("kind") == "posterior":
         msg = oracle_posterior(f["seed"], f["trim"], hex2f(f["u0_hex"]))
+        return {"fails": msg is not None, "detail": msg}
+    if f.get("kind") == "iteration":
+        msg = oracle_iteration(f["scheme"], f["vv"], f["seed"], f["n_iter"])
+        return {"fails": msg is not None, "detail": msg}
+    if f.get("kind") == "fp":
+        msg = oracle_fp(f["n"], [hex2f(h) for h in f["w_hex"]], hex2f(f["u0_hex"]))
         return {"fails": msg is not None, "detail": msg}
     wf = [hex2f(h) for h in f["w_hex"]]
     if f.get("kind") == "mult":
